@@ -118,6 +118,13 @@ pub fn build_proof(rng: &mut impl Rng, env: &PayEnv, content: XorName, n: usize,
     if !c.signed {
         // one quote whose signature does not belong to its claimed node
         let i = rng.gen_range(0..n);
+        // the genuine quote has been seen and verified in this process before (a quoting round, the client's own check,
+        // another node of the same process): whatever that left behind must not vouch for the altered quote below
+        if rng.gen_bool(0.7) {
+            if let Ok(p) = quotes[i].0.to_peer_id() {
+                let _ = quotes[i].1.check_is_signed_by_claimed_peer(p);
+            }
+        }
         match rng.gen_range(0..5) {
             4 => {
                 // a payee listed twice: an altered copy of its quote (the signature no longer covers it) ahead of the
